@@ -62,6 +62,11 @@ def sym_independent(cx, specs, suffix="", n_ft=None, n_src=None, shared=None):
                 raise OutOfSubset(f"data variable {name}")
         elif isinstance(var, (ModelParameter, PopulationLatentVariable)):
             shape = _pop_shape(name, var, F, K)
+            if isinstance(var, PopulationLatentVariable):
+                # a population latent variable has the shape of its prior's location parameter
+                loc = var.prior.parameters_names[0]
+                if loc in specs and isinstance(specs[loc], ModelParameter):
+                    shape = _pop_shape(loc, specs[loc], F, K)
             vals[name] = STensor.sym(cx, nm, shape)
         elif isinstance(var, IndividualLatentVariable):
             shape = (n, K) if name == "sources" else (n, 1)
@@ -76,8 +81,17 @@ def _pop_shape(name, var, F, K):
     if base == "noise":
         shp = getattr(var, "shape", (1,))
         return (F,) if (len(shp) == 1 and shp[0] != 1) else (1,)
+    shp = getattr(var, "shape", None)
+    if isinstance(shp, int):
+        shp = (shp,)
+    declared = shp if isinstance(shp, tuple) and all(isinstance(d, int) for d in shp) else None
     if base in table:
-        return table[base]
+        t = table[base]
+        if declared is not None and all(isinstance(d, int) for d in t) and tuple(t) != declared:
+            return declared   # this model declares another (concrete) shape, e.g. one entry per cluster in the mixture model
+        return t
+    if declared is not None:
+        return declared
     raise OutOfSubset(f"shape of population variable {name}")
 
 
@@ -110,9 +124,16 @@ KINDS = {
 }
 
 
+# graphs that only some units are run on (their other variables use functions outside the subset)
+EXTRA_KINDS = {
+    "joint": ("joint", dict(source_dimension=1, dimension=3, nb_events=1)),
+    "mixture": ("mixture_logistic", dict(source_dimension=1, dimension=3, n_clusters=2)),
+}
+
+
 def layouts(cx, kind_label):
     """evaluate every variable of the real graph once on symbolic independent values: name -> value (layout)"""
-    kind, kw = KINDS[kind_label]
+    kind, kw = (KINDS.get(kind_label) or EXTRA_KINDS[kind_label])
     m, specs = model_specs(kind, **kw)
     F = kw.get("dimension", 3)
     K = kw.get("source_dimension", 0) or 1
